@@ -1,4 +1,6 @@
 import Lemmas.ExtractREq
+import Lemmas.ExtractSpelled
+import Lemmas.ExtractVariants
 /-! # C19 — archive extraction reproduces the archive inside the destination only
 
 Two models.  The RESOLVING one (`Model/ExtractR.lean`: `Ex.walk` follows symbolic links as the kernel does;
@@ -29,7 +31,18 @@ The three clauses of the property:
 * *returns an error if an entry cannot be written in full* — `payload_error_one`, `payload_error_propagates`,
   `first_error_stops`, `extract_error_iff`, `tarOne_error_iff`, `zipOne_error_iff`, `syscall_error_iff`;
 * *nothing outside, never through a link* — `lexical_check_spec`, `extract_contained`, `extract_contained_inodes`,
-  `extract_no_outside_link`, `extract_monotone`, `extract_wf`, `ensureNoSymlinks_spec`, `guard_makes_lexical`. -/
+  `extract_no_outside_link`, `extract_monotone`, `extract_wf`, `ensureNoSymlinks_spec`, `guard_makes_lexical`.
+
+The destination as the caller spells it (`filepath.Abs`, the first statement of both `ExtractWithMask`, and its error
+branch) is inside the executed model (`Ex.tarExtractWithMaskFrom` / `zipExtractWithMaskFrom`): `absPath_clean` discharges
+the path hypotheses `GoodPath` / `NoDots` for EVERY spelling, `gone_cwd`, `spelled_is_lexical`,
+`extract_contained_spelled`, `extract_reproduces_spelled` restate containment and reproduction about the executed
+definitions with hypotheses about the tree only; `payload_error_resolving` is the error clause about the executed loops
+with no hypothesis at all (any tree, linked destinations included).  CONTRAST theorems — the loop bodies with one
+mechanism switched off (`Ex.tarOneV`, anchored to the executed bodies by `variant_is_code`) violate the property on a
+concrete archive the code refuses: `guardless_escapes` (the guard), `unchecked_name_escapes` (lexical test),
+`prefix_without_separator_escapes` (the separator of the prefix), `unchecked_linkname_escapes` (hard-link target test),
+`ignored_copy_error_is_silent` (returning the copy / close error). -/
 namespace C19
 open Ex
 
@@ -963,5 +976,326 @@ example : ∀ e ∈ [({ kind := .dir, name := [115], mode := 0o700 } : Entry), {
 /-- the guard fails on a path through a pre-existing symbolic link, and `GuardFails` says so -/
 example : ensureNoSymlinks { nodes := [([], .dir 0o755), ([[100]], .dir 0o755), ([[100], [108]], .symlink [47, 101])] }
     demoRoot [[100], [108], [120]] = false := by decide
+
+/-! ## The destination as the caller spells it: `filepath.Abs`
+
+Both `ExtractWithMask` begin with `root, err := filepath.Abs(dst)`; `Ex.absPath cwd dst` is that call (absolute spelling:
+cleaned; relative spelling, the empty string included: joined to the working directory and cleaned) and
+`Ex.tarExtractWithMaskAt` / `Ex.zipExtractWithMaskAt` — what the model driver executes in area `dstform` — are the loops
+on that root.  The theorems above quantify over roots with `GoodPath root` and `NoDots root`; `absPath_clean` discharges
+both for every spelling, so that the hypotheses left are about the file system only. -/
+
+/-- *the root is a clean absolute path for every spelling*: whatever string the caller passes and wherever the process
+    stands (`cwd`: what `os.Getwd` returns, a clean absolute path), the root has slash-free non-empty components, none
+    of them `.` or `..`; it is a fixed point of `filepath.Abs` (its text is absolute and already clean); and an absolute
+    spelling does not depend on the working directory -/
+theorem absPath_clean (cwd : P) (dst : List Nat) (hc : GoodPath cwd) (hd : NoDots cwd) :
+    GoodPath (absPath cwd dst) ∧ NoDots (absPath cwd dst) ∧
+    (absPath cwd dst ≠ [] → ∀ cwd', absPath cwd' (render (absPath cwd dst)) = absPath cwd dst) ∧
+    (dst.head? = some 47 → ∀ cwd', absPath cwd' dst = absPath cwd dst) :=
+  ⟨absPath_good cwd dst hc, absPath_nodots cwd dst hd,
+   fun hne cwd' => absPath_render cwd' _ hne (absPath_good cwd dst hc) (absPath_nodots cwd dst hd),
+   fun h cwd' => absPath_absolute cwd' cwd dst h⟩
+
+/-- spellings of one destination: from `/w`, the strings `d`, `./d`, `d/`, `x/../d`, `/w//d/.` and — from `/w/o` — `../d`
+    all give `/w/d`; `.` and the empty string give the working directory; `..` from `/w` gives `/`… -/
+example : absPath [[119]] [100] = [[119], [100]] ∧ absPath [[119]] [46, 47, 100] = [[119], [100]] ∧
+    absPath [[119]] [100, 47] = [[119], [100]] ∧ absPath [[119]] [120, 47, 46, 46, 47, 100] = [[119], [100]] ∧
+    absPath [[119]] [47, 119, 47, 47, 100, 47, 46] = [[119], [100]] ∧
+    absPath [[119], [111]] [46, 46, 47, 100] = [[119], [100]] ∧
+    absPath [[119]] [46] = [[119]] ∧ absPath [[119]] [] = [[119]] ∧ absPath [[119]] [46, 46] = [] := by decide
+
+/-- *with the guard, the extraction of a spelled destination is the lexical extraction on `filepath.Abs` of it*: every
+    theorem about `tarExtract` / `zipExtract` speaks about the executed `ExtractWithMask(r, dst, mask)` with its first
+    statement included; the hypotheses left are about the tree (`RInv`, see `resolving_is_lexical`) and that the
+    destination is not `/` -/
+theorem spelled_is_lexical (cwd : P) (dst : List Nat) (hc : GoodPath cwd) (hd : NoDots cwd)
+    (hne : absPath cwd dst ≠ []) (mask : Nat) (es : List Entry) (fs : FS) (hinv : RInv fs (absPath cwd dst)) :
+    tarExtractWithMaskAt fs cwd dst mask es = tarExtract fs (absPath cwd dst) mask es ∧
+    zipExtractWithMaskAt fs cwd dst mask es = zipExtract fs (absPath cwd dst) mask es :=
+  resolving_is_lexical _ hne (absPath_good cwd dst hc) (absPath_nodots cwd dst hd) mask es fs hinv
+
+/-- *the first statement and its error branch* (`root, err := filepath.Abs(dst); if err != nil { return … }`; the
+    executed `Ex.tarExtractWithMaskFrom` / `zipExtractWithMaskFrom`): with a working directory, the extraction is the
+    one of `spelled_is_lexical` & co.; with the working directory GONE (`os.Getwd` fails) a relative spelling — the empty
+    string included — is an error and NOTHING is looked at or changed, whatever the archive; an absolute spelling is
+    extracted as from any working directory -/
+theorem gone_cwd (fs : FS) (cwd : P) (dst : List Nat) (mask : Nat) (es : List Entry) :
+    tarExtractWithMaskFrom fs (some cwd) dst mask es = tarExtractWithMaskAt fs cwd dst mask es ∧
+    zipExtractWithMaskFrom fs (some cwd) dst mask es = zipExtractWithMaskAt fs cwd dst mask es ∧
+    (dst.head? ≠ some 47 → tarExtractWithMaskFrom fs none dst mask es = (fs, false) ∧
+      zipExtractWithMaskFrom fs none dst mask es = (fs, false)) ∧
+    (dst.head? = some 47 → tarExtractWithMaskFrom fs none dst mask es = tarExtractWithMaskAt fs cwd dst mask es ∧
+      zipExtractWithMaskFrom fs none dst mask es = zipExtractWithMaskAt fs cwd dst mask es) := by
+  refine ⟨?_, ?_, fun h => ?_, fun h => ?_⟩
+  · simp [tarExtractWithMaskFrom, tarExtractWithMaskAt, absPath?_some]
+  · simp [zipExtractWithMaskFrom, zipExtractWithMaskAt, absPath?_some]
+  · simp [tarExtractWithMaskFrom, zipExtractWithMaskFrom, absPath?, h]
+  · simp [tarExtractWithMaskFrom, zipExtractWithMaskFrom, tarExtractWithMaskAt, zipExtractWithMaskAt, absPath?, absPath, h]
+
+/-- **containment for a destination as spelled** (third clause, about the executed `ExtractWithMask` from its first
+    statement on): for every spelling `dst`, every working directory, every archive — with `root` the absolute clean
+    form of the spelling — every path that is not at or below `root` names the same node afterwards as before, except
+    that missing ancestors of `root` may have been created as directories; outside files keep content and mode and are
+    not linked into the destination.  Hypotheses: about the tree only (`RInv`). -/
+theorem extract_contained_spelled (cwd : P) (dst : List Nat) (hc : GoodPath cwd) (hd : NoDots cwd)
+    (root : P) (hroot : root = absPath cwd dst) (hne : root ≠ [])
+    (mask : Nat) (es : List Entry) (fs : FS) (hinv : RInv fs root) (q : P) (hq : ¬ root <+: q) :
+    ((q <+: root → fs.get q ≠ none) →
+      (tarExtractWithMaskAt fs cwd dst mask es).1.get q = fs.get q ∧
+      (zipExtractWithMaskAt fs cwd dst mask es).1.get q = fs.get q) ∧
+    (fs.get q = none →
+      ((tarExtractWithMaskAt fs cwd dst mask es).1.get q = none ∨
+        ∃ m, (tarExtractWithMaskAt fs cwd dst mask es).1.get q = some (.dir m)) ∧
+      ((zipExtractWithMaskAt fs cwd dst mask es).1.get q = none ∨
+        ∃ m, (zipExtractWithMaskAt fs cwd dst mask es).1.get q = some (.dir m))) ∧
+    (∀ ino, ino < fs.inodes.size → ¬ RefsBelow root fs ino →
+      (tarExtractWithMaskAt fs cwd dst mask es).1.inodes[ino]? = fs.inodes[ino]? ∧
+      (zipExtractWithMaskAt fs cwd dst mask es).1.inodes[ino]? = fs.inodes[ino]? ∧
+      ¬ RefsBelow root (tarExtractWithMaskAt fs cwd dst mask es).1 ino ∧
+      ¬ RefsBelow root (zipExtractWithMaskAt fs cwd dst mask es).1 ino) := by
+  subst hroot
+  have hg := absPath_good cwd dst hc
+  have hn := absPath_nodots cwd dst hd
+  have h1 := extract_contained_resolving _ hne hg hn mask es fs hinv q hq
+  refine ⟨h1.1, h1.2, fun ino hlt hout => ?_⟩
+  have h2 := extract_contained_inodes_resolving _ hne hg hn mask es fs hinv ino
+  refine ⟨(h2.1 hlt hout).1, (h2.1 hlt hout).2, fun h => ?_, fun h => ?_⟩
+  · rcases h2.2.1 h with h | h
+    · exact hout h
+    · omega
+  · rcases h2.2.2 h with h | h
+    · exact hout h
+    · omega
+
+/-- **reproduction for a destination as spelled** (first clause; tar — `extract_reproduces` with `filepath.Abs` inside
+    and about the resolving loop the driver executes).  Same hypotheses as `extract_reproduces`, plus `/` a directory. -/
+theorem extract_reproduces_spelled (cwd : P) (dst : List Nat) (hc : GoodPath cwd) (hd : NoDots cwd)
+    (root : P) (hroot : root = absPath cwd dst) (hne : root ≠ []) (mask : Nat) (es : List Entry) (fs : FS)
+    (hw : WF fs) (hio : InoOK fs) (hslash : ∃ m, fs.get [] = some (.dir m))
+    (hdst : fs.get root = none ∨ ∃ m, fs.get root = some (.dir m))
+    (hanc : ∀ j, 1 ≤ j → j < root.length → fs.get (root.take j) = none ∨ ∃ m, fs.get (root.take j) = some (.dir m))
+    (hempty : ∀ c t, fs.get (root ++ c :: t) = none)
+    (hentry : ∀ e ∈ es, (∃ c t, cleanJoin root e.name = root ++ c :: t) ∧
+      ((e.kind = .reg ∨ e.kind = .dir ∨ e.kind = .symlink ∨ e.kind = .link) ∧ e.short = false ∧
+       (e.kind = .symlink → e.link ≠ [])))
+    (horder : es.Pairwise (fun a b => ¬ cleanJoin root b.name <+: cleanJoin root a.name ∧
+      (cleanJoin root a.name <+: cleanJoin root b.name → a.kind = .dir)))
+    (hlinks : ∀ l1 e l2, es = l1 ++ e :: l2 → e.kind = .link →
+      ∃ t ∈ l1, (t.kind = .reg ∨ t.kind = .link) ∧ cleanJoin root t.name = cleanJoin root e.link) :
+    (tarExtractWithMaskAt fs cwd dst mask es).2 = true ∧
+    (∀ e ∈ es, e.kind = .dir →
+      (tarExtractWithMaskAt fs cwd dst mask es).1.get (cleanJoin root e.name) = some (.dir (perm e.mode &&& mask))) ∧
+    (∀ e ∈ es, e.kind = .reg → ∃ ino nd,
+      (tarExtractWithMaskAt fs cwd dst mask es).1.get (cleanJoin root e.name) = some (.file ino) ∧
+      (tarExtractWithMaskAt fs cwd dst mask es).1.inodes[ino]? = some nd ∧ nd.data = e.data ∧
+      nd.mode = perm e.mode &&& mask) ∧
+    (∀ e ∈ es, e.kind = .symlink →
+      (tarExtractWithMaskAt fs cwd dst mask es).1.get (cleanJoin root e.name) = some (.symlink e.link)) ∧
+    (∀ e ∈ es, e.kind = .link → ∃ ino,
+      (tarExtractWithMaskAt fs cwd dst mask es).1.get (cleanJoin root e.name) = some (.file ino) ∧
+      (tarExtractWithMaskAt fs cwd dst mask es).1.get (cleanJoin root e.link) = some (.file ino)) ∧
+    (∀ c t, (tarExtractWithMaskAt fs cwd dst mask es).1.get (root ++ c :: t) ≠ none ↔
+      ∃ e ∈ es, (root ++ c :: t) <+: cleanJoin root e.name) := by
+  subst hroot
+  have hg := absPath_good cwd dst hc
+  have hn := absPath_nodots cwd dst hd
+  have hinv : RInv fs (absPath cwd dst) := by
+    refine ⟨hw, hslash, fun j hj => ?_, fun t ht => ?_⟩
+    · rcases Nat.eq_zero_or_pos j with h0 | h0
+      · subst h0; exact Or.inr (by simpa using hslash)
+      · exact hanc j h0 hj
+    · rcases hdst with h | ⟨m, h⟩ <;> rw [h] at ht <;> cases ht
+  have heq := (spelled_is_lexical cwd dst hc hd hne mask es fs hinv).1
+  rw [heq]
+  have h := extract_reproduces _ hg mask es fs hw hio hdst hanc hempty hentry horder hlinks
+  exact ⟨h.1, h.2.1, h.2.2.1, h.2.2.2.1, h.2.2.2.2.1, h.2.2.2.2.2.1⟩
+
+/-- … and zip (`extract_reproduces_zip` with `filepath.Abs` inside, about the executed loop) -/
+theorem extract_reproduces_spelled_zip (cwd : P) (dst : List Nat) (hc : GoodPath cwd) (hd : NoDots cwd)
+    (root : P) (hroot : root = absPath cwd dst) (hne : root ≠ []) (mask : Nat) (es : List Entry) (fs : FS)
+    (hw : WF fs) (hio : InoOK fs) (hslash : ∃ m, fs.get [] = some (.dir m))
+    (hdst : fs.get root = none ∨ ∃ m, fs.get root = some (.dir m))
+    (hanc : ∀ j, 1 ≤ j → j < root.length → fs.get (root.take j) = none ∨ ∃ m, fs.get (root.take j) = some (.dir m))
+    (hempty : ∀ c t, fs.get (root ++ c :: t) = none)
+    (hentry : ∀ e ∈ es, (∃ c t, cleanJoin root e.name = root ++ c :: t) ∧
+      ((e.kind = .reg ∨ e.kind = .dir ∨ e.kind = .symlink) ∧ e.short = false ∧
+       (e.kind = .symlink → e.link ≠ [])))
+    (horder : es.Pairwise (fun a b => ¬ cleanJoin root b.name <+: cleanJoin root a.name ∧
+      (cleanJoin root a.name <+: cleanJoin root b.name → a.kind = .dir))) :
+    (zipExtractWithMaskAt fs cwd dst mask es).2 = true ∧
+    (∀ e ∈ es, e.kind = .dir →
+      (zipExtractWithMaskAt fs cwd dst mask es).1.get (cleanJoin root e.name) = some (.dir (perm e.mode &&& mask))) ∧
+    (∀ e ∈ es, e.kind = .reg → ∃ ino nd,
+      (zipExtractWithMaskAt fs cwd dst mask es).1.get (cleanJoin root e.name) = some (.file ino) ∧
+      (zipExtractWithMaskAt fs cwd dst mask es).1.inodes[ino]? = some nd ∧ nd.data = e.data ∧
+      nd.mode = perm e.mode &&& mask) ∧
+    (∀ e ∈ es, e.kind = .symlink →
+      (zipExtractWithMaskAt fs cwd dst mask es).1.get (cleanJoin root e.name) = some (.symlink e.link)) ∧
+    (∀ e ∈ es, e.kind = .link → ∃ ino,
+      (zipExtractWithMaskAt fs cwd dst mask es).1.get (cleanJoin root e.name) = some (.file ino) ∧
+      (zipExtractWithMaskAt fs cwd dst mask es).1.get (cleanJoin root e.link) = some (.file ino)) ∧
+    (∀ c t, (zipExtractWithMaskAt fs cwd dst mask es).1.get (root ++ c :: t) ≠ none ↔
+      ∃ e ∈ es, (root ++ c :: t) <+: cleanJoin root e.name) := by
+  subst hroot
+  have hg := absPath_good cwd dst hc
+  have hn := absPath_nodots cwd dst hd
+  have hinv : RInv fs (absPath cwd dst) := by
+    refine ⟨hw, hslash, fun j hj => ?_, fun t ht => ?_⟩
+    · rcases Nat.eq_zero_or_pos j with h0 | h0
+      · subst h0; exact Or.inr (by simpa using hslash)
+      · exact hanc j h0 hj
+    · rcases hdst with h | ⟨m, h⟩ <;> rw [h] at ht <;> cases ht
+  have heq := (spelled_is_lexical cwd dst hc hd hne mask es fs hinv).2
+  rw [heq]
+  have h := extract_reproduces_zip _ hg mask es fs hw hio hdst hanc hempty hentry horder
+  exact ⟨h.1, h.2.1, h.2.2.1, h.2.2.2.1, h.2.2.2.2.1, h.2.2.2.2.2.1⟩
+
+/-- **error propagation on the executed loops, no hypothesis at all** (second clause): for EVERY file system — a
+    destination that is a link, below a link, a tree that is not a tree —, every spelling, every mask: an archive that
+    contains a header the reader rejects or a regular file whose payload cannot be written in full (stream cut, checksum
+    error, failed `write`, failed `close`) is never extracted with a nil error (tar); the same for zip with any
+    non-directory entry (file: checksum, short or failed write, failed close; symbolic link: unreadable target).
+    And the iteration on such a regular file leaves exactly the tree the complete one leaves (the file is there, with
+    the bytes that could be copied). -/
+theorem payload_error_resolving (fs : FS) (cwd : P) (dst : List Nat) (mask : Nat) (es : List Entry) (e : Entry)
+    (he : e ∈ es) :
+    ((e.kind = .corrupt ∨ (e.short = true ∧ e.kind = .reg)) → (tarExtractWithMaskAt fs cwd dst mask es).2 = false) ∧
+    ((e.short = true ∧ e.kind ≠ .dir) → (zipExtractWithMaskAt fs cwd dst mask es).2 = false) ∧
+    (∀ fs' root, (tarOneR fs' root mask { e with short := true }).1 = (tarOneR fs' root mask { e with short := false }).1) := by
+  refine ⟨fun h => ?_, fun h => ?_, fun fs' root => tarOneG_short_tree true fs' root mask e⟩
+  · refine extractWith_false_of_mem (fun fs e => tarOneR fs (absPath cwd dst) mask e) e ?_ es he fs
+    intro fs'
+    rcases h with h | ⟨h1, h2⟩
+    · simp [tarOneR, tarOneG_corrupt true fs' _ mask e h]
+    · exact tarOneG_short true fs' _ mask e h1 h2
+  · exact extractWith_false_of_mem (fun fs e => zipOneR fs (absPath cwd dst) mask e) e
+      (fun fs' => zipOneG_short true fs' _ mask e h.1 h.2) es he fs
+
+/-- *`filepath.Rel` as the guard uses it* (`Ex.relParts`; the guard `Ex.ensureNoSymlinksR` is modelled for every pair of
+    clean absolute paths and compared directly with `internal.EnsureNoSymlinks` in area `guard`): joining the parts
+    back to the root one after the other — which is what the guard's loop does, `cur = filepath.Join(cur, part)` —
+    arrives exactly at the path, so the LAST `Lstat` of an unfinished walk is the path itself; and for a path at or below
+    the root (all the extractors ever pass, `lexical_check_spec`) the parts are `.` or the components below the root, so
+    every `Lstat` is at a prefix of the path strictly below the root — the guard never looks at (or above) the
+    destination's ancestors -/
+theorem guard_rel_spec (root p : P) (hd : NoDots p) :
+    (relParts root p).foldl cleanStep root = p ∧
+    (root <+: p → relParts root p = if p = root then [[46]] else p.drop root.length) ∧
+    (¬ root <+: p → p ≠ root → 1 ≤ root.length - commonLen root p ∧ (relParts root p).head? = some [46, 46]) := by
+  refine ⟨relParts_join root p hd, relParts_of_prefix root p, fun hnp hne => ?_⟩
+  have hle := commonLen_le root p
+  have hlt : commonLen root p < root.length := by
+    rcases Nat.lt_or_ge (commonLen root p) root.length with h | h
+    · exact h
+    · exfalso; apply hnp
+      have e : commonLen root p = root.length := by omega
+      have := commonLen_take root p
+      rw [e, List.take_length] at this
+      rw [this]; exact List.take_prefix _ _
+  refine ⟨by omega, ?_⟩
+  unfold relParts
+  rw [if_neg hne]
+  obtain ⟨k, hk⟩ : ∃ k, root.length - commonLen root p = k + 1 := ⟨root.length - commonLen root p - 1, by omega⟩
+  rw [hk, List.replicate_succ]
+  rfl
+
+/-- `Rel("/a/b", "/a/c/d")` = `../c/d`, `Rel("/a/b", "/a")` = `..`, `Rel("/d", "/d")` = `.`, `Rel("/d", "/d/x/y")` = `x/y` -/
+example : relParts [[97], [98]] [[97], [99], [100]] = [[46, 46], [99], [100]] ∧ relParts [[97], [98]] [[97]] = [[46, 46]] ∧
+    relParts [[100]] [[100]] = [[46]] ∧ relParts [[100]] [[100], [120], [121]] = [[120], [121]] := by decide
+
+/-! ## Contrast: each mechanism is necessary
+
+`Ex.tarOneV m` / `Ex.zipOneV m` (Lemmas/ExtractVariants.lean) are the loop bodies with each protective mechanism behind a
+switch of `m : Mech`; with all switches on they ARE the executed loop bodies (`variant_is_code`).  For every switch, a
+concrete archive on which the extractor without that mechanism violates the property while the code does not.  (The guard
+switch is `guardless_escapes` above.) -/
+
+/-- the variant family is anchored: all switches on = the loop bodies the driver executes; the guard switch alone = the
+    `guarded` flag of `guardless_escapes` -/
+theorem variant_is_code :
+    tarOneV Mech.code = tarOneR ∧ zipOneV Mech.code = zipOneR ∧ tarExtractV Mech.code = tarExtractR ∧
+    zipExtractV Mech.code = zipExtractR ∧ ∀ g, tarOneV { guard := g } = tarOneG g :=
+  ⟨tarOneV_code, zipOneV_code, tarExtractV_code, zipExtractV_code, tarOneV_guard⟩
+
+/-- `../e/x` -/
+def attackDotDot : List Entry := [{ kind := .reg, name := [46, 46, 47, 101, 47, 120], data := [1] }]
+/-- `../d-evil/x`: the sibling whose name begins with the destination's name -/
+def attackSibling : List Entry := [{ kind := .reg, name := [46, 46, 47, 100, 45, 101, 118, 105, 108, 47, 120], data := [1] }]
+/-- the hard link `h => ../e/v`, then the file `h` -/
+def attackHardLink : List Entry :=
+  [{ kind := .link, name := [104], link := [46, 46, 47, 101, 47, 118] }, { kind := .reg, name := [104], data := [6, 6] }]
+/-- a file whose payload is cut short after one byte -/
+def cutArchive : List Entry := [{ kind := .reg, name := [97], data := [1], short := true }]
+
+/-- **the lexical test of the entry path is necessary**: without it `../e/x` is created outside (no link involved, the
+    guard has nothing to refuse); the code refuses the entry and creates nothing -/
+theorem unchecked_name_escapes :
+    (tarExtractV { nameCheck := false } worldFs demoRoot 0o777 attackDotDot).2 = true ∧
+    (tarExtractV { nameCheck := false } worldFs demoRoot 0o777 attackDotDot).1.get [[101], [120]] ≠ none ∧
+    (zipExtractV { nameCheck := false } worldFs demoRoot 0o777 attackDotDot).1.get [[101], [120]] ≠ none ∧
+    (tarExtractR worldFs demoRoot 0o777 attackDotDot).2 = false ∧
+    (tarExtractR worldFs demoRoot 0o777 attackDotDot).1.get [[101], [120]] = none ∧
+    (zipExtractR worldFs demoRoot 0o777 attackDotDot).2 = false ∧
+    (zipExtractR worldFs demoRoot 0o777 attackDotDot).1.get [[101], [120]] = none := by
+  decide
+
+/-- **the trailing separator of the prefix is necessary**: tested against `root` instead of `root + "/"`, every
+    ordinary escape is still refused (`../e/x`) but `../d-evil/x` — a sibling whose name merely begins with the
+    destination's — passes and is created beside the destination; the code refuses it -/
+theorem prefix_without_separator_escapes :
+    (tarExtractV { sep := false } worldFs demoRoot 0o777 attackDotDot).2 = false ∧
+    (tarExtractV { sep := false } worldFs demoRoot 0o777 attackSibling).2 = true ∧
+    (tarExtractV { sep := false } worldFs demoRoot 0o777 attackSibling).1.get
+      [[100, 45, 101, 118, 105, 108], [120]] ≠ none ∧
+    (zipExtractV { sep := false } worldFs demoRoot 0o777 attackSibling).1.get
+      [[100, 45, 101, 118, 105, 108], [120]] ≠ none ∧
+    (tarExtractR worldFs demoRoot 0o777 attackSibling).2 = false ∧
+    (tarExtractR worldFs demoRoot 0o777 attackSibling).1.get [[100, 45, 101, 118, 105, 108]] = none ∧
+    (zipExtractR worldFs demoRoot 0o777 attackSibling).2 = false ∧
+    (zipExtractR worldFs demoRoot 0o777 attackSibling).1.get [[100, 45, 101, 118, 105, 108]] = none := by
+  decide
+
+/-- **the lexical test of the hard-link target is necessary**: without it the outside file `/e/v` is linked into the
+    destination and the next entry replaces its content; the code refuses the link entry, `/e/v` keeps its content.
+    (The guard is on in both: its `filepath.Rel` gives `../e/v`, the walk `Lstat`s `/`, `/e`, `/e/v` — `guard_rel_spec` —
+    and meets no symbolic link.) -/
+theorem unchecked_linkname_escapes :
+    (tarExtractV { linkCheck := false } worldFs demoRoot 0o777 attackHardLink).2 = true ∧
+    (tarExtractV { linkCheck := false } worldFs demoRoot 0o777 attackHardLink).1.get [[100], [104]] = some (.file 0) ∧
+    (tarExtractV { linkCheck := false } worldFs demoRoot 0o777 attackHardLink).1.inodes[0]? =
+      some { data := [6, 6], mode := 0o644 } ∧
+    (tarExtractR worldFs demoRoot 0o777 attackHardLink).2 = false ∧
+    (tarExtractR worldFs demoRoot 0o777 attackHardLink).1.get [[100], [104]] = none ∧
+    (tarExtractR worldFs demoRoot 0o777 attackHardLink).1.inodes[0]? = some { data := [7], mode := 0o644 } := by
+  decide
+
+/-- **returning the copy error is necessary** (the tar extractor before the fix ignored it): without it an archive
+    whose payload is cut short is extracted with a nil error, the incomplete file in place; the code returns the error
+    (the same incomplete file is there, `payload_error_resolving`) -/
+theorem ignored_copy_error_is_silent :
+    (tarExtractV { copyErr := false } worldFs demoRoot 0o777 cutArchive).2 = true ∧
+    (zipExtractV { copyErr := false } worldFs demoRoot 0o777 cutArchive).2 = true ∧
+    (tarExtractR worldFs demoRoot 0o777 cutArchive).2 = false ∧
+    (zipExtractR worldFs demoRoot 0o777 cutArchive).2 = false ∧
+    (tarExtractR worldFs demoRoot 0o777 cutArchive).1.get [[100], [97]] =
+      (tarExtractV { copyErr := false } worldFs demoRoot 0o777 cutArchive).1.get [[100], [97]] := by
+  decide
+
+/-- `payload_error_resolving` needs nothing of the tree: here the destination `/d` is a symbolic link to `/e`; the cut
+    file is an error (and lands, incomplete, in the physical place `/e/a`) -/
+example : (tarExtractWithMaskAt
+    { nodes := [([], .dir 0o755), ([[101]], .dir 0o755), ([[100]], .symlink [47, 101])] } [] [47, 100] 0o777 cutArchive).2 = false ∧
+    (tarExtractWithMaskAt
+    { nodes := [([], .dir 0o755), ([[101]], .dir 0o755), ([[100]], .symlink [47, 101])] } [] [47, 100] 0o777 cutArchive).1.get
+      [[101], [97]] = some (.file 0) := by decide
+
+/-- the hypotheses of the spelled theorems hold together: from `/e` the spelling `../d/.` names the destination `/d` of
+    `worldFs` -/
+example : absPath [[101]] [46, 46, 47, 100, 47, 46] = demoRoot := by decide
+example : GoodPath [[101]] ∧ NoDots [[101]] := by
+  constructor <;> intro c hc <;> simp at hc <;> subst hc <;> exact ⟨by decide, by decide⟩
+example : (tarExtractWithMaskAt worldFs [[101]] [46, 46, 47, 100, 47, 46] 0o750
+    [{ kind := .reg, name := [97], data := [1, 2] }]).1.get [[100], [97]] = some (.file 1) := by decide
 
 end C19
